@@ -216,8 +216,22 @@ pub fn damage(rng: &mut Rng, h: &mut GHeader) {
 
 pub fn gen_lead(rng: &mut Rng, arbitrary: bool) -> Vec<u8> {
     let mut v = vec![0xed, 0xab, 0xee, 0xdb];
-    if arbitrary {
+    if arbitrary && rng.chance(1, 2) {
         v.extend(rng.bytes(92));
+    } else if arbitrary {
+        // plausible leads: every numeric field from a small set that contains the values tools really write AND their
+        // neighbours (signature type 0 = "no signature section" in rpm's lead, 5 = header-style signature; seed C16-7)
+        v.push(*rng.pick(&[3u8, 4, 2, 0]));
+        v.push(*rng.pick(&[0u8, 1]));
+        v.extend_from_slice(&(*rng.pick(&[0u16, 1, 2, 0xffff])).to_be_bytes());
+        v.extend_from_slice(&(*rng.pick(&[0u16, 1, 12, 255])).to_be_bytes());
+        let mut name = [0u8; 66];
+        let n = *rng.pick(&[0usize, 4, 65, 66]);
+        for b in name.iter_mut().take(n) { *b = b'a' + (rng.below(26) as u8); }
+        v.extend_from_slice(&name);
+        v.extend_from_slice(&(*rng.pick(&[1u16, 0, 255])).to_be_bytes());
+        v.extend_from_slice(&(*rng.pick(&[5u16, 0, 1, 6])).to_be_bytes());
+        if rng.chance(1, 2) { v.extend_from_slice(&[0; 16]); } else { v.extend(rng.bytes(16)); }
     } else {
         v.extend_from_slice(&[3, 0, 0, 0, 0, 1]);
         let mut name = [0u8; 66];
